@@ -149,16 +149,6 @@ def register(reg):
                       ("stops", "VHCT_Stops(self.path)", "C05 C06"),
                       ("greedy", "Greedy(self.path)", "C05"),
                       ("result", "result is self.curr_node.c_point", "C01 C04")])
-    # get_last_point is pull(0): it rewrites the pending (path, curr_node) that the next receive_reward credits, so it must
-    # leave the path the selection rule determines (which is unique for a given state)
-    fn("VHCT.get_last_point", N=N, props="C01 C04 C05 C15", params={}, returns="list[real]",
-       requires=INV, modifies=["self.path", "self.curr_node", "*VHCT_node.tau"],
-       ensures=INV + [("taus", TAUS, "C06"),
-                      ("path", "defined(self.path) and defined(self.curr_node) and fresh(self.path) and PathOK(self.partition, self.path)", "C04 C05"),
-                      ("end", "self.curr_node is self.path[len(self.path) - 1] and self.path[0] is self.partition.root", "C05"),
-                      ("stops", "VHCT_Stops(self.path)", "C04 C05 C06"),
-                      ("greedy", "Greedy(self.path)", "C04 C05"),
-                      ("result", "result is self.curr_node.c_point", "C01 C04")])
     DT0 = ("(1 if self.c1 * self.delta / tplus(old(self.iteration)) >= 1 else self.c1 * self.delta / tplus(old(self.iteration)))")
     UPD_MOD = ETG + ["*VHCT_node.u_value", "*VHCT_node.b_value", "*VHCT_node.mean_reward", "self.iteration",
                      END + ".children", "self.partition.depth", "list(self.partition.node_list)",
@@ -202,7 +192,7 @@ def register(reg):
        requires=INV + [("pulled", "defined(self.path) and PathOK(self.partition, self.path)", "C04")],
        modifies=[m.replace("path", "self.path") for m in UPD_MOD],
        ensures=INV + selfpath(AFTER))
-    fn("VHCT.get_last_point", N=N, props="C01 C15", params={}, returns="list[real]",
+    fn("VHCT.get_last_point", N=N, props="C01 C04 C05 C15", params={}, returns="list[real]",
        requires=INV, modifies=["self.path", "self.curr_node", "*VHCT_node.tau"],
        ensures=INV + [("result", "defined(self.curr_node) and result is self.curr_node.c_point", "C01"),
                       # a recommendation query re-derives the pull path by the same rule (so it is harmless between rounds)
